@@ -12,6 +12,10 @@ CLAIMED = {
          "Seeded search over generated programs (timers armed at past/now/future/equal instants, post/defer/dispatch, stop/restart, extra run) executed against the real library; every handler's virtual time, per-kind order and exactly-once are compared with a reference scheduler. Failures are minimised and replay-gated.", "3.2"),
  "C03": ("clock", "exploration", "deterministic simulation: seeded timer histories vs reference waitable-timer model, plus a small exhaustive sweep",
          "Seeded histories of expires_at/expires_after/async_wait/cancel/cancel_one/destroy over 1-4 timers issued outside run(), inside handlers and between runs, compared op by op (return values) and completion by completion (time, error, order) with a model of the asio waitable-timer contract; plus all histories up to length 3 (quick) / 5 (thorough) over a 9-symbol alphabet.", "3.3"),
+ "C09": ("queue", "exploration", "deterministic simulation: seeded arrival processes into real queues, probe logs vs departure recurrence",
+         "Seeded search over queue parameters (1-3 hops; bandwidth 0 or 1 kB/s-1 GB/s; latency 0-10 s; any capacity) and arrival processes (singles, same-instant bursts, sustained overload, arrivals placed exactly on predicted departures, all packet types) injected into real sim::queue objects; the per-queue departure log from probe sinks is compared with leave=max(prev,arrive+latency)+floor(size*1e9/bw) to +-1 ns, FIFO order and the end-to-end lower bound.", "3.9"),
+ "C10": ("queue", "exploration", "deterministic simulation: seeded overload bursts into real queues, shadow byte account and conservation from probe logs",
+         "Same workloads as C09; a shadow byte account per queue decides for every arrival whether it must be tail-dropped; every arrival is matched with exactly one departure (identical packet, route shortened by one hop) or one drop report delivered at the instant of arrival to the packet's own callback; control packets are never dropped; nothing is held at quiescence.", "3.10"),
 }
 
 NOT_YET = "not claimed yet: the engine for this property is still under construction in this tree"
